@@ -9,15 +9,52 @@ const char *CHK_RULE = "one case = one history: generated table, 1..10 request l
                        "refusal count bucket, table size)";
 void chk_describe(FILE *f) { eng_describe(f); }
 
+/* deterministic sweep: one event triggered at service step k, one write-refusal run of length L at write attempt p, against a line with a
+ * data response and a command list; both producers contend for the line at every relative offset */
+#define SW_K 70
+#define SW_P 90
+static cat_return_state sw_policy(struct hcall *h) { return (h->kind == K_RUN && h->ci == 2) ? CAT_RETURN_STATE_PRINT_CMD_LIST_OK : CAT_RETURN_STATE_DATA_OK; }
+static void sweep_case(long item)
+{
+        static const int LL[3] = { 0, 1, 3 };
+        int L = LL[item % 3]; item /= 3; int p = (int)(item % SW_P), k = (int)(item / SW_P);
+        w_begin();
+        struct cat_command *a = w_group(3, false);
+        a[0].name = xstr("+CMD"); { struct cat_variable *v = w_vars(&a[0], 1); v->type = CAT_VAR_UINT_DEC; uint8_t *d = w_vdata(v, 1); *d = 1; } a[0].read = (k & 1) ? h_read : NULL;
+        a[1].name = xstr("+UCMD"); { struct cat_variable *v = w_vars(&a[1], 1); v->type = CAT_VAR_UINT_DEC; uint8_t *d = w_vdata(v, 1); *d = 2; } a[1].description = (p & 1) ? xstr("u") : NULL;
+        a[2].name = xstr("#HELP"); a[2].run = h_run;
+        w_buffers(64, (p & 2) != 0, 32);
+        w_init(k & 1);
+        in_reset(); in_puts((p & 4) ? "AT+CMD?\r\nAT#HELP\r\n" : "AT+CMD?\nAT#HELP\n");
+        static uint8_t bits[256]; memset(bits, 1, sizeof bits); for (int i = 0; i < L; i++) bits[p + i] = 0;
+        sch_bits(&WS, bits, sizeof bits); sch_eager(&RS);
+        eng_monitors_install();
+        ENG_POLICY_OVERRIDE = sw_policy; EP.p_handler_trigger = 0;
+        long B = 4000; bool quiet = false;
+        for (long i = 0; i < B; i++) {
+                if (i == k) eng_trigger(1, (p & 8) ? CAT_CMD_TYPE_TEST : CAT_CMD_TYPE_READ);
+                cat_status st = svc(); eng_after_service(st);
+                if (case_failed()) break;
+                if (st == CAT_STATUS_OK && INPOS >= INLEN && i >= k) { quiet = true; break; }
+        }
+        if (quiet) {
+                CNT("sweep_cases");
+                if (PU.units != 1) viol("C11", "unit-lost", "the event unit was emitted %ld times", PU.units);
+                if (RESULT_CODES != 2) viol("C01", "final-count", "%ld result codes for 2 lines", RESULT_CODES);
+        }
+        nontrivial(hash_u64((uint64_t)item * 3 + (uint64_t)L, 1100));
+        ENG_POLICY_OVERRIDE = NULL;
+}
 struct case_budget chk_budget(const char *tier)
 {
-        struct case_budget b = { 0, strcmp(tier, "thorough") == 0 ? 800000 : 40000 };
+        struct case_budget b = { (long)SW_K * SW_P * 3, strcmp(tier, "thorough") == 0 ? 800000 : 40000 };
         return b;
 }
 void chk_run_case(uint64_t seed, long c, bool is_sweep)
 {
-        (void)seed; (void)c; (void)is_sweep;
+        (void)seed;
         eng_default_profile();
+        if (is_sweep) { sweep_case(c); return; }
         EP.p_event_step = 30 + rn(120); EP.p_handler_trigger = 25; EP.p_backpressure = 85; EP.p_list = 12; EP.p_hold = 8; EP.p_garbage_line = 3; EP.p_long_line = 3;
         eng_gen_table();
         eng_gen_input(1 + rn(10));
